@@ -1,5 +1,5 @@
 """Mutators for source texts."""
-HOSTILE = [")", "}", "(", "{", '"', "'", ",", "#", "$", "%", ".", ":", "/", "*", "\r", "\n", "\t", "\0", "\x7f", "é", "€", "𝄞",
+HOSTILE = [")", "}", "(", "{", '"', "'", ",", "#", "$", "%", ".", ":", "/", "*", "\r", "\n", "\t", "\0", "\x7f", "é", "€", "𝄞", "\u212a", "\u0130", "\u017f",
            " ", "a", "1", "-", "+", "=", "<", ">", "!", ";", "\\", "[", "]", "_", "@", "&", "|", "^", "~", "`", "?"]
 
 
